@@ -5268,7 +5268,13 @@ def _match_str(pat: str, tgt: _Targets, mstate: _MatchState) -> Mapping[str, Any
 
     elif isinstance(tgt, FSTView):
         if tgt.src != pat:
-            return None
+            if not isinstance(tgt, (FSTView_Global_Nonlocal, FSTView_kwd_attrs)):
+                return None
+
+            start, stop = tgt.start_and_stop
+
+            if stop - start != 1 or getattr(tgt.base.a, tgt.field)[start] != pat:  # single identifier as the AST has it, source may not be NFKC normalized
+                return None
 
     else:
         return None
